@@ -783,7 +783,7 @@ impl Prop for C17 {
         ]
     }
     fn cases(&self, tier: Tier) -> u32 {
-        tier.pick(30_000, 2_000_000)
+        tier.pick(60_000, 2_000_000)
     }
     fn strategy(&self, _tier: Tier) -> BoxedStrategy<Case> {
         let secret32 = any::<[u8; 32]>();
